@@ -404,6 +404,15 @@ impl<H: Host> ZXController<H> {
         (self.current_port_7ffd, self.paging_enabled, self.screen_bank)
     }
 
+    /// Verification hook: force the 128K paging latch to `value`, ignoring a previous lock
+    #[cfg(rustzx_verif)]
+    pub(crate) fn verif_set_paging(&mut self, value: u8) {
+        if self.machine == ZXMachine::Sinclair128K {
+            self.paging_enabled = true;
+            self.write_7ffd(value);
+        }
+    }
+
     pub(crate) fn refresh_memory_dependent_devices(&mut self) {
         match self.machine {
             ZXMachine::Sinclair48K => {
